@@ -39,6 +39,10 @@ def make_group(name, nover, ndef, explicit, tmpl, generic, cls=None):
             f["params"] = f["params"] + extra
             if explicit == "default_arg_suffix":
                 y["default_arg_suffix"] = ["_n%d" % j for j in range(ndef + 1)]
+            elif explicit == "default_arg_suffix_short":
+                y["default_arg_suffix"] = ["_n%d" % j for j in range(ndef)]          # the remaining variants are numbered
+            elif explicit == "default_arg_suffix_long":
+                y["default_arg_suffix"] = ["_n%d" % j for j in range(ndef + 2)]      # the surplus entry is unused
         if explicit == "function_suffix" and not (i == 0 and ndef):
             y["format"] = {"function_suffix": "_v%s" % "abc"[i]}
         if i == nover - 1 and tmpl:
@@ -277,16 +281,16 @@ def main(rec):
     thorough = common.tier() == "thorough"
     r = common.rng("c08")
     rec.rule = ("one C++ name = overload set size 1..3 x trailing defaults 0..2 on the first overload x suffix policy "
-                "{none, function_suffix, default_arg_suffix} x {no template, 2 instantiations} x {no fortran_generic, 2 entries "
+                "{none, function_suffix, default_arg_suffix complete / one entry short / one entry long} x {no template, 2 instantiations} x {no fortran_generic, 2 entries "
                 "with/without explicit suffix} x {free function, class method} x {overload set adjacent / interleaved with other names in the declaration list}; exhaustive over this product (quick: each "
                 "combination once, 6 names per library), libraries also vary namespace and C_prefix; distinct_nontrivial = "
                 "distinct callable signatures whose C and Fortran names were compared with the model")
     rec.assumptions = ["naming model vf/libgen/libs.py:assign_names written from docs/reference.rst (C_name_template, F_name_impl_template, "
                        "F_name_generic_template, default suffix rules)", "C++ names are lower case so that un_camel is the identity (the property's domain)"]
     combos = []
-    for nover, ndef, explicit, tmpl, generic, incls in itertools.product([1, 2, 3], [0, 1, 2], [None, "function_suffix", "default_arg_suffix"],
+    for nover, ndef, explicit, tmpl, generic, incls in itertools.product([1, 2, 3], [0, 1, 2], [None, "function_suffix", "default_arg_suffix", "default_arg_suffix_short", "default_arg_suffix_long"],
                                                                         [False, True], [None, "nosfx", "sfx"], [False, True]):
-        if explicit == "default_arg_suffix" and not ndef:
+        if (explicit or "").startswith("default_arg_suffix") and not ndef:
             continue
         if tmpl and generic:
             continue
